@@ -22,7 +22,7 @@ CASE_TIMEOUT = {"quick": 1200, "thorough": 3000}
 def cases(tier, rng):
     n = 12 if tier == "quick" else 70
     return [
-        {"seed": int(rng.integers(1 << 30)), "steps": int(rng.integers(8, 22 if tier == "quick" else 45)), "pml": ["some", None, "all"][i % 3]}
+        {"seed": int(rng.integers(1 << 30)), "steps": int(rng.integers(8, 22 if tier == "quick" else 45)), "pml": ["some", None, "all"][i % 3], "mclass": i}
         for i in range(n)
     ]
 
@@ -61,6 +61,7 @@ def _one(sc, r):
         detectors=("field", "phasor", "energy", "poynting"),
         n_detectors=(2, 4),
         grid=("uniform", "uniform", "rect"),
+        material_class=sc.get("mclass"),
     )
     meta = scene["meta"]
     # half of the scenes carry a (stable) dispersive box: dispersion switches the plane sources to a separate
@@ -102,6 +103,7 @@ def _one(sc, r):
     nontriv = float(np.abs(E_all).max()) > 0
     base_sig = (tuple(sorted(meta["source_kinds"])), tuple(sorted(meta["detector_kinds"])), bool(meta["pml_faces"]), meta["dispersive"])
     r.branch("dispersive_scene" if meta["dispersive"] else "non_dispersive_scene")
+    r.branch("material_class:" + str(meta.get("material_class", "none")))
     for k in meta["source_kinds"]:
         r.branch("source:" + k)
     for k in meta["detector_kinds"]:
